@@ -1,6 +1,7 @@
 # -*- coding: UTF-8 -*-
 """C17 — sorted_combinations / min_combinations_in_interval_iter_sorted: correspondence with Model/Generic.lean"""
 import itertools
+import random
 
 from .. import core
 from ..core import Case, err_name
@@ -199,6 +200,9 @@ class Prop(SeqProp):
             hi = rng.choice([0, 1, 2, 5])
             out.append({"kind": "lt-only-key", "scores": [rng.randint(0, hi) for _ in range(m)],
                         "key": rng.choice(["sum", "max", "spread", "len", "const", "distinct"])})
+        # many elements: the stream is lazy, only its head is taken (sizes around 255 / 256 / 257 and beyond)
+        for m in ([255, 256, 257, 300, 1000] if tier == "quick" else [255, 256, 257, 258, 300, 511, 512, 513, 1000, 5000]):
+            out.append({"kind": "many-elements", "n": m, "seed": rng.randrange(1 << 30)})
         return out
 
     def run_extra(self, desc):
@@ -213,6 +217,29 @@ class Prop(SeqProp):
             def __lt__(self, other):
                 return self.v < other.v
 
+        if desc["kind"] == "many-elements":
+            r = random.Random(desc["seed"])
+            n = desc["n"]
+            sc = [r.randint(1, 50) for _ in range(n)]
+            take = 40
+            try:
+                head = core.call_with_alarm(lambda: list(itertools.islice(
+                    g.sorted_combinations(range(n), lambda c: sum(sc[i] for i in c), yield_key=True), take)), 20.0)
+                mins = core.call_with_alarm(lambda: g.min_combinations_in_interval_iter_sorted(list(range(n)), sc, 0, 10 ** 9), 20.0)
+            except core.Timeout:
+                return f"the head of the stream over {n} elements was not produced within 20 s"
+            except Exception as e:  # noqa
+                return f"sorted_combinations over {n} elements raised {err_name(e)}: {e}"
+            ks = [k for _, k in head]
+            if len(head) != take or ks != sorted(ks) or any(k != sum(sc[i] for i in c) for c, k in head) or \
+                    len({c for c, _ in head}) != take or any(list(c) != sorted(set(c)) for c, _ in head):
+                return f"{n} elements: the first {take} combinations are not distinct index-ordered tuples in key order: {head[:6]}"
+            if ks[0] != min(sc):
+                return f"{n} elements: the stream starts with key {ks[0]}, the least score is {min(sc)}"
+            exp = sorted(([i], sc[i]) for i in range(n) if sc[i] == min(sc))
+            if sorted(mins) != exp:
+                return f"{n} elements: min-combination search over the whole range gives {mins[:5]}, expected the least singletons {exp[:5]}"
+            return None
         sc = desc["scores"]
         kf = key_fn(desc["key"], sc)
         limit = 2 ** len(sc) + 8
